@@ -134,6 +134,29 @@ fn cc14_oracle(
                 return Err("C16 a Control Change outside 0-63 reported something or changed the state".into());
             }
         }
+        // C07's own statement, evaluated on the real scanner in the (reachable) state after this
+        // event: the encoding of a 14-bit message yields nothing, then exactly the message
+        "C07" => {
+            for n in 0..32u8 {
+                for v in [0u16, 1, 127, 128, 8192, 16383] {
+                    let msg = ControlChange14BitMessage::new(chv(ev.c), cnv(n), u14v(v));
+                    let enc: [RawShortMessage; 2] = msg.to_short_messages();
+                    let mut t = *main;
+                    let r0 = t.feed(&enc[0]);
+                    let r1 = t.feed(&enc[1]);
+                    if r0.is_some() || r1 != Some(msg) {
+                        return Err(format!("C07 after this history the encoding of {:?} is scanned as {:?}, {:?}", msg, r0, r1));
+                    }
+                }
+            }
+        }
+        "C17" => {
+            let mut t = *main;
+            t.reset();
+            if t != ControlChange14BitMessageScanner::new() {
+                return Err("C17 after this history reset() does not give a scanner equal to a new one".into());
+            }
+        }
         _ => {}
     }
     Ok(diverged)
@@ -148,7 +171,7 @@ fn cc14_search(
     d2: u8,
     max_depth: usize,
 ) -> Option<Found> {
-    if !matches!(prop, "C08" | "C15" | "C16") {
+    if !matches!(prop, "C07" | "C08" | "C15" | "C16" | "C17") {
         return None;
     }
     let other = (ch + 1) % 16;
@@ -255,6 +278,40 @@ fn nrpn_oracle(
                 return Err("C16 a non-contributing Control Change reported something or changed the state".into());
             }
         }
+        // C10's own statement, evaluated on the real scanner in the (reachable) state after this
+        // event: the documented encodings yield nothing until the last message, then the original
+        "C10" => {
+            for (n, v, reg, kind) in [
+                (0u16, 0u16, false, 0u8),
+                (16383, 127, true, 0),
+                (420, 15000, true, 1),
+                (16383, 16383, false, 1),
+                (421, 1, false, 2),
+                (5, 127, true, 3),
+            ] {
+                let msg = pnm::build(ev.c, n, v, reg, kind);
+                let order = if kind == 1 { DataEntryByteOrder::LsbFirst } else { DataEntryByteOrder::MsbFirst };
+                let enc: [Option<RawShortMessage>; 4] = msg.to_short_messages(order);
+                let cnt = enc.iter().flatten().count();
+                let mut t = *main;
+                for (i, e) in enc.iter().flatten().enumerate() {
+                    let r = t.feed(e);
+                    if i + 1 < cnt && r.is_some() {
+                        return Err(format!("C10 after this history message {} of the encoding of {:?} already reports {:?}", i, msg, r));
+                    }
+                    if i + 1 == cnt && r != Some(msg) {
+                        return Err(format!("C10 after this history the encoding of {:?} is scanned as {:?}", msg, r));
+                    }
+                }
+            }
+        }
+        "C17" => {
+            let mut t = *main;
+            t.reset();
+            if t != ParameterNumberMessageScanner::new() {
+                return Err("C17 after this history reset() does not give a scanner equal to a new one".into());
+            }
+        }
         _ => {}
     }
     Ok(diverged)
@@ -269,7 +326,7 @@ fn nrpn_search(
     d2: u8,
     max_depth: usize,
 ) -> Option<Found> {
-    if !matches!(prop, "C11" | "C15" | "C16") {
+    if !matches!(prop, "C10" | "C11" | "C15" | "C16" | "C17") {
         return None;
     }
     let other = (ch + 1) % 16;
